@@ -64,6 +64,7 @@ T = {
  "W6_C12_fmindex_last_sample": ("C12", "FMINDEX build_ssa converts (len+1)/step suffix samples into member IDs instead of (len+1)/step+1 (the same site as the first wave's C05 seed, written independently against the tuning-parameter clause)", "FMINDEX with BWT sampling step >= 2 not dividing len+1; a substring query whose backward walk ends on the last sample in suffix-array order returns a text offset instead of an ID; step 1, locate, extract and prefix search unaffected"),
  "W6_C13_xbw_dup_skip_one": ("C13", "IteratorDictIDXBWDuplicates::next skips at most one repeated entry of the sorted result array", "XBW locateSubstr with a pattern that occurs three or more times inside one member (a in banana); every other kind and iterator unaffected"),
  "W6_C19_wtnoptrs_load_height": ("C19", "WaveletTreeNoptrs::load rejects an image whose height differs from bits(max_v), forgetting that the constructors use max(1, bits(max_v))", "WaveletTreeNoptrs over a non-empty sequence whose only symbol is 0 (max_v = 0, height 1), after save/load: load returns NULL; all answers before save and every other sequence unaffected"),
+ "W6_C14_hashrpdac_lookup_memo": ("C14", "HASHRPDAC locate memoises the last lookup resolved by double hashing under the key (home slot, length) and answers later lookups with that key from the memo", "HASHRPDAC (and HASHRPDACBlocks parts); on one long-lived object a locate of a member that is not in its home slot, then a locate of a different string (member or not) with the same length and the same home slot: it gets the first member's ID; a fresh object or another query order answers correctly (replacement for a first, declined change - see 8.5)"),
 }
 for d in sorted(os.listdir(S)):
     p = os.path.join(S, d)
